@@ -51,7 +51,7 @@ impl Src {
     pub uninterp spec fn is_boundary(&self, i: int) -> bool;
     pub uninterp spec fn spec_find(&self, re: Re, i: int) -> Option<Match>;
     pub uninterp spec fn spec_starts_with(&self, i: int, s: Lit) -> bool;
-    pub open spec fn ok(&self, i: int) -> bool { 0 <= i <= self.slen() && self.is_boundary(i) && self.slen() <= usize::MAX }
+    pub open spec fn ok(&self, i: int) -> bool { 0 <= i <= self.slen() && self.is_boundary(i) && self.slen() <= isize::MAX }
 
     #[verifier::external_body]
     pub proof fn axiom_ends(&self) ensures self.is_boundary(0), self.is_boundary(self.slen() as int), self.slen() <= usize::MAX { }
